@@ -335,7 +335,11 @@ pub fn c12(ctx: &mut Ctx) {
     c12_pieces(ctx);
     let mut rng = ctx.rng.fork();
     let mut jobs = Vec::new();
-    let cts: [(&str, Option<bool>); 22] = [
+    let cts: [(&str, Option<bool>); 25] = [
+        // a charset value is everything behind the first '=' of its option
+        ("application/x-www-form-urlencoded; charset=utf-8=x", None),
+        ("application/x-www-form-urlencoded; charset=utf-8=", None),
+        ("application/x-www-form-urlencoded; charset==utf-8", None),
         // bytes 0xA0 / 0x85 are not ASCII white space: at the edge of the media type they make it another type, at the
         // edge of a charset label an unknown label, in front of an option name another option
         ("application/x-www-form-urlencoded\u{a0}", Some(false)),
@@ -1444,7 +1448,7 @@ pub fn check_passthrough(ctx: &mut Ctx, done: Vec<Done>) {
             bad.push("headers".into());
         }
         if let Answer::Key { identity, .. } = &c.answer {
-            if r.principal != format!("{:?}", imp::principal_for(identity)) || r.session != format!("{:?}", imp::session_for(identity)) {
+            if r.principal != format!("{:?}", imp::principal_for(identity)) || r.session_data != imp::session_for(identity) {
                 bad.push("identity".into());
             }
         }
